@@ -75,6 +75,26 @@ theorem owningLoop_sound (A : Arith α) (eps : α) :
       · exact Or.inl h'
       · exact Or.inr ⟨f, List.mem_cons_of_mem _ hf, hlt⟩
 
+/-! ### `psi` and the tolerance in force at the call -/
+
+theorem psiLoop_true {σ S U B D : Type} (A : Arith D) (nsq : B → D) (O : PsiOracle σ S U B) (tolSq : D) :
+    ∀ (k : Nat) (s : σ) (x : S) (b : B) (x' : S) (s' : σ), (∃ s₀, (O.resid s₀ x).1 = b) →
+      psiLoop A nsq O tolSq k s x b = (true, x', s') →
+      ∃ b', (∃ s₀, (O.resid s₀ x').1 = b') ∧ A.lt (nsq b') tolSq = true
+  | 0, s, x, b, x', s', hev, h => by
+    simp only [psiLoop, Prod.mk.injEq] at h
+    obtain ⟨h1, h2, _⟩ := h
+    subst h2
+    exact ⟨b, hev, h1⟩
+  | k + 1, s, x, b, x', s', hev, h => by
+    simp only [psiLoop] at h
+    split at h
+    · exact psiLoop_true A nsq O tolSq k _ _ _ x' s' ⟨_, rfl⟩ h
+    · simp only [Prod.mk.injEq] at h
+      obtain ⟨h1, h2, _⟩ := h
+      subst h2
+      exact ⟨b, hev, h1⟩
+
 /-! ### the table: `generateHalfspace` only appends -/
 
 theorem find?_map_id (f : ChartM α → ChartM α) (hid : ∀ ch, (f ch).id = ch.id) (d : Nat) :
